@@ -45,7 +45,7 @@ WHAT TO PRODUCE. %(count)d separate changes (each applies alone to the clean HEA
  2. compiles, passes `go vet`, and passes the whole existing suite unedited (`go test -count=1 . ./format ./internal/...`);
  3. makes the library violate the property above for some inputs/usages - a real semantic violation of the statement as written, not a cosmetic difference that the statement allows;
  4. NEEDS SOMETHING SPECIFIC TO MANIFEST: an unusual input shape, a boundary count or length, a particular read schedule or API call sequence, a particular configuration, a crash/fault at a particular point, a particular goroutine interleaving, or two cooperating code sites that each look fine alone. Ordinary use (typical documents, the spec examples) must not expose it at once. Aim for subtle and deep: a defect that a quick random test with naive inputs would most likely miss.
- 5. comes with a demonstration: a Go test file (package commonmark, or package format for the formatter) with one Test function named TestSeed%(id)sr10xN (N = 1..%(count)d) that FAILS with the change and PASSES on the clean tree, using only the public API (or unexported identifiers of the package if really needed), self-contained (no new dependencies).
+ 5. comes with a demonstration: a Go test file (package commonmark, or package format for the formatter) with one Test function named TestSeed%(id)sr11xN (N = 1..%(count)d) that FAILS with the change and PASSES on the clean tree, using only the public API (or unexported identifiers of the package if really needed), self-contained (no new dependencies).
 
 The following ideas were already used for this property in earlier rounds. Do NOT repeat them or close variants of them; look in other code paths, other mechanisms named in the anchors, other API entry points, other configurations:
 %(earlier)s
